@@ -98,6 +98,7 @@ func loadProg(repo string, dirs []string) (*Prog, error) {
 		return nil, err
 	}
 	p.specs = specs
+	specDefines = specs.Defines
 	p.findings = map[string]*KnownFinding{}
 	kf := loadKnownFindings(verifDir)
 	for i := range kf.Findings {
